@@ -13,6 +13,7 @@ import (
 	"strings"
 	"time"
 	"unicode"
+	"unicode/utf8"
 
 	_ "embed"
 
@@ -1654,6 +1655,10 @@ func (g *generator) writeText(indentLevel int, n parser.Text) (err error) {
 }
 
 func createGoString(s string) string {
+	if !utf8.ValidString(s) {
+		// A raw string literal can't spell bytes that aren't valid UTF-8, they would be written as U+FFFD.
+		return strconv.Quote(s)
+	}
 	var sb strings.Builder
 	sb.WriteRune('`')
 	sects := strings.Split(s, "`")
